@@ -20,9 +20,10 @@ def run(rep, tier):
     R.rule_round_trip(rep, tier)
     # what reaches the emitters: saving may only add blanks and absorb slivers below the threshold (shared with C04)
     from .c04 import prep_table
-    rep.rule("T10-T12-prep", "the save preparation interpreted on a generic textgrid (shared with C04): entries verbatim without blank filling; with it, only blanks added and slivers strictly below the threshold absorbed -- decided by exact comparison, no tolerance")
+    rep.rule("T10-T12-prep", "the save preparation interpreted on a generic textgrid (shared with C04): entries verbatim without blank filling; with it, only blanks added and slivers strictly below the threshold absorbed, every tier's own span written as in memory (also for a tier narrower than its textgrid) -- decided by exact comparison, no tolerance")
     for k_ in (0, 1):
         prep_table(rep, "T10-T12-prep", k_, True, "none")
+    prep_table(rep, "T10-T12-prep", 1, True, "none", narrow=True)  # a tier narrower than its textgrid keeps its own span in the file
     R.rule_numeric_regex(rep, tier)
     R.rule_numeric_conversion(rep, tier)
     R.rule_exact_formatter(rep)
